@@ -95,7 +95,7 @@ type Func struct {
 	HasErr   bool     `json:"has_err,omitempty"`
 	ErrFirst bool     `json:"err_first,omitempty"` // the error result is declared first instead of last (constructors / decorators)
 	ErrAt    int      `json:"err_at,omitempty"`    // >0: the error result is declared before top-level result ErrAt (in the middle)
-	Reenter  bool     `json:"reenter,omitempty"`   // constructor body calls Invoke for its own first result (re-entrant user code)
+	Reenter  bool     `json:"reenter,omitempty"`   // constructor / decorator body calls Invoke for its own first result (re-entrant user code)
 	Variadic bool     `json:"variadic,omitempty"`
 
 	// Provide options.
